@@ -25,6 +25,7 @@ from ..core import (
     finding_func,
     norm,
     own_calls,
+    qual_of,
     walk_no_nested,
 )
 from ..lib import NORMAL, event_var, first_arg_is, must_pass, stores_of, strip_await, test_edges
@@ -270,33 +271,65 @@ def rule_urls(program, ctx):
         floor=1,
     )
     fn = program.func("nostr_relay.auth:Authenticator.parse_options")
-    st = stores_of(fn, "valid_urls")
+    # the variable handed out as valid_urls: second element of the returned tuple
+    ret = next((r for r in walk_no_nested(fn) if isinstance(r, ast.Return) and isinstance(r.value, ast.Tuple) and len(r.value.elts) >= 2), None)
+    rname = dotted(ret.value.elts[1]) if ret is not None else "valid_urls"
+    st = stores_of(fn, rname)
     if not st:
         ctx.bad(finding_func(P, rid, fn, "valid_urls is no longer computed in parse_options", text="def parse_options(...)"))
         return
-    normalised = False
+    # variables normalised by `if isinstance(N, str): N = [N]`, with the line of the normalising test
+    normalised = {}
     for n in ast.walk(fn):
-        if isinstance(n, ast.If) and ast.unparse(n.test) == "isinstance(valid_urls, str)":
-            # body must re-bind valid_urls to a container holding the string
+        if isinstance(n, ast.If) and isinstance(n.test, ast.Call) and call_name(n.test) == "isinstance" and len(n.test.args) == 2 and isinstance(n.test.args[0], ast.Name) and "str" in ast.unparse(n.test.args[1]):
+            N = n.test.args[0].id
             for b in n.body:
-                if isinstance(b, ast.Assign) and dotted(b.targets[0]) == "valid_urls" and isinstance(b.value, (ast.List, ast.Tuple, ast.Set)) and any(dotted(e) == "valid_urls" for e in b.value.elts):
-                    normalised = True
-    for s in st:
-        v = s.value if isinstance(s, ast.Assign) else None
-        if isinstance(v, ast.Call) and call_name(v).endswith(".get") and len(v.args) == 2:
-            d = v.args[1]
-            if isinstance(d, ast.Constant) and isinstance(d.value, str) and not normalised:
-                ctx.bad(finding_at(P, rid, s, "default relay_urls is a str: `tag[1] in self.valid_urls` becomes a substring test (an AUTH event naming relay \"ws\" passes)"))
-            elif isinstance(d, (ast.List, ast.Tuple, ast.Set)) or normalised:
-                ctx.ok(rid, s, "valid_urls default is a container / str input is normalised")
-            else:
-                ctx.ok(rid, s, "valid_urls default of unknown type (not provably str)", nontrivial=False)
-        elif isinstance(v, (ast.List, ast.Tuple, ast.Set, ast.ListComp, ast.SetComp)) or (isinstance(v, ast.Call) and call_name(v) in ("list", "set", "tuple", "frozenset")):
-            ctx.ok(rid, s, "valid_urls bound to a container")
-        elif isinstance(v, ast.Constant) and isinstance(v.value, str):
-            ctx.bad(finding_at(P, rid, s, "valid_urls bound to a str constant"))
+                if isinstance(b, ast.Assign) and dotted(b.targets[0]) == N and isinstance(b.value, (ast.List, ast.Tuple, ast.Set)) and any(dotted(e) == N for e in b.value.elts):
+                    normalised[N] = n.lineno
+
+    def leaves(v):
+        if isinstance(v, ast.BoolOp):
+            return [x for e in v.values for x in leaves(e)]
+        if isinstance(v, ast.IfExp):
+            return leaves(v.body) + leaves(v.orelse)
+        return [v]
+
+    def leaf_ok(v, store, seen=()):
+        """is this source provably not a bare str when it reaches the membership test?"""
+        if isinstance(v, (ast.List, ast.Tuple, ast.Set, ast.ListComp, ast.SetComp)) or (isinstance(v, ast.Call) and call_name(v) in ("list", "set", "tuple", "frozenset", "sorted")):
+            return True, "container"
+        if isinstance(v, ast.Constant):
+            return (not isinstance(v.value, str)), "constant"
+        if isinstance(v, ast.Name) and v.id not in seen:
+            if v.id in normalised and all(getattr(s2, "lineno", 0) < normalised[v.id] for s2 in stores_of(fn, v.id) if not any(a.lineno == normalised[v.id] for a in ancestors(s2) if isinstance(a, ast.If))):
+                return True, f"{v.id} normalised"
+            subs = [s2 for s2 in stores_of(fn, v.id) if isinstance(s2, ast.Assign)]
+            if subs and all(all(leaf_ok(l, s2, seen + (v.id,))[0] for l in leaves(s2.value)) for s2 in subs):
+                return True, f"{v.id} from checked sources"
+            return False, f"`{v.id}` is not normalised"
+        if isinstance(v, ast.Call) and call_name(v).endswith(".get"):
+            # an option value: anything the operator wrote - only fine if the *target* variable is normalised afterwards
+            tgt = dotted(store.targets[0]) if isinstance(store, ast.Assign) else None
+            if tgt in normalised and store.lineno < normalised[tgt] and len(leaves(store.value)) == 1:
+                return True, "option value, normalised afterwards"
+            return False, f"`{ast.unparse(v)[:50]}` may be a single str and is not normalised"
+        return True, "non-str expression"
+
+    for s_ in st:
+        if not isinstance(s_, ast.Assign):
+            continue
+        if any(isinstance(a, ast.If) and a.lineno == normalised.get(rname) for a in ancestors(s_)):
+            continue  # the normalising re-binding itself
+        v = s_.value
+        if isinstance(v, ast.Call) and call_name(v).endswith(".get") and len(v.args) == 2 and isinstance(v.args[1], ast.Constant) and isinstance(v.args[1].value, str) and rname not in normalised:
+            ctx.bad(finding_at(P, rid, s_, "default relay_urls is a str: `tag[1] in self.valid_urls` becomes a substring test (an AUTH event naming relay \"ws\" passes)"))
+            continue
+        verdicts = [leaf_ok(l, s_) for l in leaves(v)]
+        badv = [why for okv, why in verdicts if not okv]
+        if badv:
+            ctx.bad(finding_at(P, rid, s_, f"valid_urls can be a bare str: {badv[0]} - `tag[1] in self.valid_urls` is then a substring test (relay tags \"wss://\", \"relay\" or \"\" authenticate)"))
         else:
-            ctx.ok(rid, s, "valid_urls bound to a non-str expression", nontrivial=False)
+            ctx.ok(rid, s_, f"valid_urls sources: {[w for _, w in verdicts]}")
 
 
 def rule_challenge(program, ctx):
@@ -381,10 +414,70 @@ def rule_token(program, ctx):
         ctx.bad(finding_func(P, rid, sc, "no AUTH branch assigns the result of authenticate() to auth_token", text="def start_client(...) :: AUTH"))
 
 
+def rule_urls_frozen(program, ctx, prop=P, rid="C15.frozen"):
+    ctx.rule(
+        rid,
+        "the list of URLs this relay answers to is never extended at run time: no code binds the configured `relay_urls` list (Config.authentication.get('relay_urls'…) / "
+        "authenticator.valid_urls) to a name without copying it and then mutates it (append/extend/update/add/+=/item store) - the Authenticator holds the *same* list "
+        "object as valid_urls, so an alias that grows (e.g. with the relays an event was forwarded to) makes AUTH answers addressed to those relays valid here",
+        floor=1,
+    )
+    MUT = ("append", "extend", "update", "add", "insert", "remove", "discard", "pop", "clear", "__setitem__", "__iadd__")
+    n_src = 0
+    for m in program.modules.values():
+        if m.rel.startswith("<dep>"):
+            continue
+        for fn in [f for f in ast.walk(m.tree) if isinstance(f, (ast.FunctionDef, ast.AsyncFunctionDef))]:
+            aliases = {}
+            for st in walk_no_nested(fn):
+                if isinstance(st, ast.Assign) and len(st.targets) == 1 and isinstance(st.targets[0], ast.Name):
+                    v = st.value
+                    src = None
+                    for l in ([v] if not isinstance(v, (ast.BoolOp, ast.IfExp)) else list(ast.walk(v))):
+                        if isinstance(l, ast.Call) and call_name(l).endswith(".get") and l.args and isinstance(l.args[0], ast.Constant) and l.args[0].value in ("relay_urls", "valid_urls") and l is v:
+                            src = l
+                        if isinstance(l, ast.Subscript) and isinstance(l.slice, ast.Constant) and l.slice.value in ("relay_urls", "valid_urls") and l is v:
+                            src = l
+                        if isinstance(l, ast.Attribute) and l.attr == "valid_urls" and l is v:
+                            src = l
+                    if src is not None:
+                        aliases[st.targets[0].id] = st
+                elif isinstance(st, ast.Assign) and isinstance(st.value, ast.Call) and call_name(st.value) in ("set", "list", "tuple", "frozenset") and st.value.args:
+                    a0 = st.value.args[0]
+                    if isinstance(a0, ast.Call) and call_name(a0).endswith(".get") and a0.args and isinstance(a0.args[0], ast.Constant) and a0.args[0].value in ("relay_urls", "valid_urls"):
+                        n_src += 1
+                        ctx.ok(rid, st, f"{qual_of(fn)}: works on a copy ({norm(st, 60)})")
+            # the parser itself re-binds its local to a fresh list, it does not mutate the option value
+            for name, src_st in aliases.items():
+                n_src += 1
+                muts = []
+                for c in walk_no_nested(fn):
+                    if isinstance(c, ast.Call) and isinstance(c.func, ast.Attribute) and c.func.attr in MUT and dotted(c.func.value) == name:
+                        muts.append(c)
+                    if isinstance(c, ast.AugAssign) and dotted(c.target) == name:
+                        muts.append(c)
+                    if isinstance(c, (ast.Assign, ast.Delete)) and any(isinstance(t, ast.Subscript) and dotted(t.value) == name for t in (c.targets if hasattr(c, "targets") else [])):
+                        muts.append(c)
+                if muts:
+                    ctx.bad(finding_at(prop, rid, muts[0], f"{qual_of(fn)}: `{name}` is the configured relay_urls list itself (`{norm(src_st, 60)}`), and `{norm(muts[0], 50)}` mutates it: every URL added "
+                                       "here becomes a URL the authenticator accepts in an AUTH event's relay tag"))
+                else:
+                    ctx.ok(rid, src_st, f"{qual_of(fn)}: `{name}` aliases the configured list and is only read")
+            for c in walk_no_nested(fn):
+                if isinstance(c, ast.Call) and isinstance(c.func, ast.Attribute) and c.func.attr in MUT and isinstance(c.func.value, ast.Attribute) and c.func.value.attr == "valid_urls":
+                    ctx.bad(finding_at(prop, rid, c, f"{qual_of(fn)} mutates authenticator.valid_urls"))
+    if not n_src:
+        raise AnalysisError("no read of the relay_urls option found")
+
+
 def run(program, ctx):
+    from ..lib import rule_awaited
+
+    rule_awaited(program, ctx, P, ANCHORS)
     rule_gate(program, ctx)
     rule_guards(program, ctx)
     rule_urls(program, ctx)
+    rule_urls_frozen(program, ctx)
     rule_challenge(program, ctx)
     rule_token(program, ctx)
     ctx.not_decided += [
